@@ -42,6 +42,20 @@ var (
 	ratchet          = hx.Op{K: "ratchet"}
 )
 
+// bulk pre-state for value separation: 60 keys k00..k59 with 200-byte distinct values (every 5th
+// one tiny and inline) written as one batch and flushed: a blob file of several 4 KiB value blocks.
+func bulkPre() []hx.Op {
+	var sub []hx.Op
+	for i := 0; i < 60; i++ {
+		v := fmt.Sprintf("value-of-k%02d|", i) + strings.Repeat(string(rune('a'+i%26)), 190)
+		if i%5 == 0 {
+			v = fmt.Sprintf("t%02d", i)
+		}
+		sub = append(sub, hx.Op{K: "set", Key: fmt.Sprintf("k%02d", i), Val: v})
+	}
+	return []hx.Op{{K: "batch", Sub: sub}, flush}
+}
+
 func sized(k string, n int) hx.Op { return hx.Op{K: "set", Key: k, Val: strings.Repeat("x", n)} }
 
 type plan struct {
@@ -60,6 +74,8 @@ var (
 	auto     = hx.Config{Name: "autocompact", AutoCompact: true, TinyFiles: true}
 	autoSt   = hx.Config{Name: "autocompact-tablestats", AutoCompact: true, TinyFiles: true, TableStats: true}
 	autoDef  = hx.Config{Name: "default-thresholds-tablestats", AutoDefault: true, TableStats: true}
+	tinyLB   = hx.Config{Name: "tiny-lbase-manual", TinyLBase: true}
+	shared   = hx.Config{Name: "shared-caches-valsep", SharedCaches: true, ValSep: true}
 	valsep   = hx.Config{Name: "valsep", ValSep: true}
 	valsepAC = hx.Config{Name: "valsep-autocompact", ValSep: true, AutoCompact: true}
 	tinyF    = hx.Config{Name: "tinyfiles", TinyFiles: true}
@@ -123,6 +139,9 @@ func plansFor(prop string, th bool) []plan {
 			{name: "maintenance-auto", cfg: auto, mon: rd, alpha: []hx.Op{setA, setB, delA, mergeB, drAC, flush, snap, closesnap, iter, closeiter, efos}, depth: d(4, 5), need: [][]string{{"snap", "iter", "efos"}}},
 			{name: "maintenance-auto-valsep", cfg: valsepAC, mon: monitors{latest: true, readers: true, lazy: true}, alpha: []hx.Op{sized("a", 4), sized("a", 200), sized("b", 3), delA, flush, snap, iter, compact, closesnap}, depth: d(4, 5), need: [][]string{{"snap", "iter"}}},
 			{name: "maintenance-auto-l0+l6", cfg: auto, mon: rd, pre: l0l6, alpha: a[:11], depth: d(3, 4), need: [][]string{{"snap", "iter", "efos"}}},
+			{name: "maintenance-valsep-bulk-rewrite", cfg: valsepAC, mon: monitors{latest: true, readers: true, lazy: true}, pre: bulkPre(), alpha: []hx.Op{
+				{K: "delrange", Key: "k00", End: "k25"}, flush, compact, {K: "waitidle"}, snap, iter, {K: "delrange", Key: "k30", End: "k45"}, closesnap},
+				depth: d(3, 4), need: [][]string{{"delrange"}, {"snap", "iter"}}},
 			{name: "maintenance-default-thresholds-tablestats", cfg: autoDef, mon: rd, pre: []hx.Op{setA, setB, flush, compact}, alpha: []hx.Op{snap, drAC, flush, iter, setA, closesnap, delA, closeiter, efos}, depth: d(3, 4), need: [][]string{{"snap", "iter", "efos"}, {"delrange"}}},
 			{name: "maintenance-auto-tablestats", cfg: autoSt, mon: rd, alpha: []hx.Op{setA, setB, delA, drAC, flush, snap, closesnap, iter, closeiter, mergeB}, depth: d(4, 5), need: [][]string{{"snap", "iter"}}},
 		}
@@ -139,6 +158,9 @@ func plansFor(prop string, th bool) []plan {
 			{name: "levels-tinymem", cfg: tinyMem, mon: lv, alpha: a[:13], depth: d(3, 4), need: [][]string{maint}},
 			// an older version of the excise-end key in L0 and an unflushed key inside the span (so
 			// that ingest+excise takes the flushable path)
+			// manual compactions with LBaseMaxBytes=1: data rests in intermediate levels, so an ingest
+			// has to stop above it
+			{name: "levels-intermediate", cfg: tinyLB, mon: lv, pre: []hx.Op{setA, setB, flush, compact, setB, flush, compact}, alpha: []hx.Op{ingA, ingB, setA, flush, compact, ing2, exAB, delA, ingBdr}, depth: d(3, 4), need: [][]string{{"ingest"}}},
 			{name: "levels-excise-end-key", cfg: baseCfg, mon: lv, pre: []hx.Op{setC, flush, setA}, alpha: []hx.Op{ingExACc, flush, ingExAC, compact, setC, exAB, ingA, delA}, depth: d(3, 4), need: [][]string{{"ingestexcise"}}},
 		}
 	case "C36":
@@ -149,6 +171,9 @@ func plansFor(prop string, th bool) []plan {
 			{name: "ingest-excise-l0+l6", cfg: baseCfg, mon: rd, pre: l0l6, alpha: a, depth: d(2, 3), need: [][]string{{"ingest", "ingestexcise", "excise"}}},
 			{name: "ingest-excise-tinymem", cfg: tinyMem, mon: rd, alpha: a, depth: d(3, 3), need: [][]string{{"ingest", "ingestexcise", "excise"}}},
 			{name: "ingest-excise-auto", cfg: auto, mon: rd, alpha: a[:12], depth: d(3, 4), need: [][]string{{"ingest", "ingestexcise", "excise"}}},
+			// excise spans that start inside existing tables/spans (left remainders), with range deletions
+			// and range keys straddling the span
+			{name: "excise-left-remainder", cfg: baseCfg, mon: rd, alpha: []hx.Op{drAC, rksAC, setB, flush, exBC, setA, iter, compact, ingRK, exAB}, depth: d(4, 5), need: [][]string{{"excise"}}},
 			{name: "ingest-excise-end-key", cfg: baseCfg, mon: rd, pre: []hx.Op{setC, flush, setA}, alpha: []hx.Op{ingExACc, flush, ingExAC, compact, setC, exAB, iter, delA}, depth: d(3, 4), need: [][]string{{"ingestexcise"}}},
 		}
 	case "C39":
@@ -166,6 +191,12 @@ func plansFor(prop string, th bool) []plan {
 		return []plan{
 			{name: "valsep", cfg: valsep, mon: vm, alpha: a, depth: d(4, 5), need: [][]string{{"flush", "compact"}}},
 			{name: "valsep-auto", cfg: valsepAC, mon: vm, alpha: a[:11], depth: d(4, 5), need: [][]string{{"flush"}}},
+			// a multi-block blob file whose head becomes garbage: blob-file rewrites remap value
+			// blocks; every key is read by Get, forward and BACKWARD scans of one iterator, LazyValue
+			{name: "valsep-bulk-rewrite", cfg: valsepAC, mon: vm, pre: bulkPre(), alpha: []hx.Op{
+				{K: "delrange", Key: "k00", End: "k25"}, flush, compact, {K: "waitidle"},
+				{K: "delrange", Key: "k30", End: "k45"}, {K: "set", Key: "k59", Val: strings.Repeat("z", 300)}, iter, {K: "del", Key: "k27"}},
+				depth: d(3, 4), need: [][]string{{"delrange"}, {"compact", "flush"}}},
 			{name: "valsep-off", cfg: baseCfg, mon: vm, alpha: a[:9], depth: d(3, 4), need: [][]string{{"flush", "compact"}}},
 		}
 	case "C45":
@@ -182,6 +213,7 @@ func plansFor(prop string, th bool) []plan {
 		return []plan{
 			{name: "close", cfg: baseCfg, mon: cm, alpha: a, depth: d(3, 4), need: [][]string{{"set", "ingest", "batch"}}},
 			{name: "close-valsep-auto", cfg: valsepAC, mon: cm, alpha: []hx.Op{sized("a", 200), flush, iter, snap, compact, delA, sized("b", 4)}, depth: d(3, 4), need: [][]string{{"set"}}},
+			{name: "close-shared-caches", cfg: shared, mon: cm, alpha: []hx.Op{sized("a", 200), flush, iter, snap, compact, delA, sized("b", 4), closeiter}, depth: d(3, 4), need: [][]string{{"set"}}},
 			{name: "close-tinymem", cfg: tinyMem, mon: cm, alpha: a[:9], depth: d(3, 3), need: [][]string{{"set", "batch"}}},
 		}
 	}
@@ -195,6 +227,9 @@ type Case struct {
 	Cfg  hx.Config `json:"cfg"`
 	Pre  []hx.Op   `json:"pre,omitempty"`
 	Hist []hx.Op   `json:"hist"`
+	// Index identifies the history inside its plan when the artefact was written by the worker pool
+	// itself (panic / hang): the history is decoded from it on replay.
+	Index int `json:"index,omitempty"`
 }
 
 func TestCheck(t *testing.T) {
@@ -204,8 +239,26 @@ func TestCheck(t *testing.T) {
 			if err := c.LoadReplay(&cs); err != nil {
 				t.Fatal(err)
 			}
+			if cs.Prop == "" {
+				cs.Prop = c.Prop
+			}
 			for _, p := range plansFor(cs.Prop, true) {
 				if p.name == cs.Plan {
+					if len(cs.Hist) == 0 {
+						for _, q := range append(plansFor(cs.Prop, false), plansFor(cs.Prop, true)...) {
+							if q.name == cs.Plan {
+								seq := vlib.SeqDecode(cs.Index, len(q.alpha), q.depth, q.depth)
+								if seq != nil {
+									cs.Hist, cs.Cfg, cs.Pre = nil, q.cfg, q.pre
+									for _, s := range seq {
+										cs.Hist = append(cs.Hist, q.alpha[s])
+									}
+									break
+								}
+							}
+						}
+						fmt.Printf("replaying plan %s item %d = [%s]\n", cs.Plan, cs.Index, hx.HistString(cs.Hist))
+					}
 					f, _, _ := histRun(c, cs.Cfg, p.mon, cs.Pre, cs.Hist, true)
 					c.Eval(1)
 					if f != nil {
@@ -225,7 +278,7 @@ func TestCheck(t *testing.T) {
 			}
 			k := len(p.alpha)
 			n := vlib.SeqCount(k, p.depth, p.depth)
-			done, complete := c.Each(n, func(i int) {
+			done, complete := c.EachNamed(p.name, n, func(i int) {
 				seq := vlib.SeqDecode(i, k, p.depth, p.depth)
 				hist := make([]hx.Op, len(seq))
 				for j, s := range seq {
